@@ -214,6 +214,14 @@ pub fn take_panic() -> Option<String> {
     LAST_PANIC.lock().unwrap_or_else(|e| e.into_inner()).take()
 }
 
+/// hand a message taken with `take_panic` back (a property looked at a panic and lets it through)
+pub fn put_panic(msg: String) {
+    let mut g = LAST_PANIC.lock().unwrap_or_else(|e| e.into_inner());
+    if g.is_none() {
+        *g = Some(msg);
+    }
+}
+
 /// digits -> '#', repo path prefix stripped, truncated: stable under unrelated edits
 pub fn normalize_sig(s: &str) -> String {
     let mut out = String::new();
